@@ -3,7 +3,7 @@ from vlib import sesscheck
 
 ID = 'C13'
 LEVEL = 'exploration'
-RULE = "Same program space as C09 with failing calls weighted up (duplicate pk/unique/composite keys incl. set() with several keys, None for required attributes, unlinking required partners, refused deletes and cascades that fail half-way). A public-API snapshot of every object the session holds (scalars, pk, to-one references, and at depth 2 collections, plus Entity[pk] identity) is taken before each modifying call (after resolving the call's arguments) and compared with the snapshot after a call that raised; later C09-style database comparison shows a later commit writes nothing for the failed call. Non-trivial = a program in which at least one modifying call raised; distinct by program hash."
+RULE = "Same program space as C09 with failing calls weighted up (duplicate pk/unique/composite keys incl. set() with several keys, None for required attributes, unlinking required partners, refused deletes and cascades that fail half-way). A public-API snapshot of every object the session holds (scalars, pk, to-one references, and at depth 2 collections, plus Entity[pk] identity) is taken before each modifying call (after resolving the call's arguments) and compared with the snapshot after a call that raised; later C09-style database comparison shows a later commit writes nothing for the failed call. Non-trivial = a program in which at least one modifying call raised; distinct by program hash. A share of the programs (one third; one half for C11/C13/C15) comes from the hub family: every relationship starts at one entity, with cascading/unlinking relationships declared around a refusing one, populated, and then aimed operations (pending updates of children, pending removals on the hub collections, new children with explicit keys) precede the delete of the hub, so that deletes refused after part of their cascade are common."
 ASSUMPTIONS = ['live SQLite (in-memory) with foreign keys enforced immediately',
                'reference store vlib/refstore.py written from the documented relationship/cascade/key semantics (DESIGN.md section 7a)',
                'table and column names are taken from the mapping metadata (names only)']
